@@ -214,6 +214,38 @@ func c36(r *core.Run) {
 	})
 	r.Floor("C36.G2", "returns of the stored key in mem.Key", nStored, 1)
 
+	// --- F1 import rollback: after the existing key file was moved away (bak), every path
+	// to a return passes the registration of the deferred restore
+	for _, name := range []string{"(*Service).ImportKey", "(*Service).ImportPrivateKey"} {
+		fn := w.Func(fp, name)
+		if fn == nil {
+			r.Fatal("unresolved anchor %s.%s", fp, name)
+			continue
+		}
+		r.Saw(core.FuncName(fn))
+		r.Eval(core.EdgeCount(fn))
+		baks := core.Calls(fn, "(*"+fp+".Service).bak")
+		r.Floor("C36.F1", "backup calls in "+name, len(baks), 1)
+		isRestoreDefer := func(in ssa.Instruction) bool {
+			d, ok := in.(*ssa.Defer)
+			if !ok {
+				return false
+			}
+			mc, ok := d.Call.Value.(*ssa.MakeClosure)
+			if !ok {
+				return false
+			}
+			return len(core.Calls(mc.Fn.(*ssa.Function), "(*"+fp+".Service).restore")) > 0
+		}
+		for _, b := range baks {
+			okEdges, _ := core.AtomEdges(fn, core.ErrNilAtom(func(c *ssa.Call) bool { return c == b.(*ssa.Call) }))
+			ok := len(okEdges) > 0 && mustPassFrom(edgeTargets(okEdges), isRestoreDefer)
+			r.Check("C36.F1", core.Key("C36.F1", fn, "restore registered right after backup"), b.Pos(), ok,
+				"once the stored key file has been moved to its backup, every way out of the import restores it on error",
+				"a path from the successful backup to a return bypasses the deferred restore: a failed import leaves the key file renamed away, and the next Key() call silently creates a new key under any password")
+		}
+	}
+
 	// --- G3 file.Key
 	var data ssa.Value
 	for _, c := range core.Calls(fkey, "os.ReadFile") {
